@@ -53,6 +53,13 @@ var guardSpecs = []guardSpec{
 	{"callGetSuggestionsGuard", "pkg/controller.v1beta1/suggestion/suggestionclient/suggestionclient.go", "SyncAssignments", "rpcClientSuggestion.GetSuggestions(", syncAtoms, syncParams},
 	{"callGetRulesGuard", "pkg/controller.v1beta1/suggestion/suggestionclient/suggestionclient.go", "SyncAssignments", "rpcClientEarlyStopping.GetEarlyStoppingRules(", syncAtoms, syncParams},
 	{"appendAssignmentsGuard", "pkg/controller.v1beta1/suggestion/suggestionclient/suggestionclient.go", "SyncAssignments", "append(instance.Status.Suggestions, trialAssignments...)", syncAtoms, syncParams},
+	{"callReconcileVolumeGuard", "pkg/controller.v1beta1/suggestion/suggestion_controller.go", "ReconcileSuggestion", "r.reconcileVolume(", rsAtoms, rsParams},
+	{"callReconcileRBACGuard", "pkg/controller.v1beta1/suggestion/suggestion_controller.go", "ReconcileSuggestion", "r.reconcileRBAC(", rsAtoms, rsParams},
+	{"markDeployNotReadyGuard", "pkg/controller.v1beta1/suggestion/suggestion_controller.go", "ReconcileSuggestion", "instance.MarkSuggestionStatusDeploymentReady(corev1.ConditionFalse", rsAtoms, rsParams},
+	{"callValidateGuard", "pkg/controller.v1beta1/suggestion/suggestion_controller.go", "ReconcileSuggestion", "r.ValidateAlgorithmSettings(", rsAtoms, rsParams},
+	{"callValidateESGuard", "pkg/controller.v1beta1/suggestion/suggestion_controller.go", "ReconcileSuggestion", "r.ValidateEarlyStoppingSettings(", rsAtoms, rsParams},
+	{"markSugRunningGuard", "pkg/controller.v1beta1/suggestion/suggestion_controller.go", "ReconcileSuggestion", "instance.MarkSuggestionStatusRunning(corev1.ConditionTrue", rsAtoms, rsParams},
+	{"callSyncGuard", "pkg/controller.v1beta1/suggestion/suggestion_controller.go", "ReconcileSuggestion", "r.SyncAssignments(", rsAtoms, rsParams},
 	{"sugRestartGuard", "pkg/controller.v1beta1/experiment/experiment_controller_util.go", "restartSuggestion", "original.DeepCopy()",
 		map[string]string{"err != nil": "getFailed", "errors.IsNotFound(err)": "notFound", "original.IsCompleted()": "sugCompleted", "original.IsRestarting()": "sugRestarting", "original.IsSucceeded()": "sugSucceeded", "instance.IsRestarting()": "expRestarting"},
 		[]string{"getFailed", "notFound", "sugCompleted", "sugRestarting", "sugSucceeded", "expRestarting"}},
@@ -93,6 +100,15 @@ var syncAtoms = map[string]string{
 	"responseSuggestion.Algorithm != nil":                               "replyHasSettings",
 }
 var syncParams = []string{"nothingRequested", "failed1", "failed2", "wrongSize", "esSet", "failed3", "failed4", "replyHasSettings"}
+
+var rsAtoms = map[string]string{
+	"err != nil": "failed#", "instance.Spec.ResumePolicy == experimentsv1beta1.FromVolume": "fromVolume",
+	"instance.Spec.EarlyStopping != nil":                                                   "esSet",
+	"deploy.Spec.Template.Spec.ServiceAccountName == util.GetSuggestionRBACName(instance)": "generatedAccount",
+	"r.checkDeploymentReady(foundDeploy)":                                                  "deployReady", "instance.IsRunning()": "running",
+}
+var rsParams = []string{"fromVolume", "esSet", "generatedAccount", "deployReady", "running",
+	"failed1", "failed2", "failed3", "failed4", "failed5", "failed6", "failed7", "failed8", "failed9", "failed10", "failed11", "failed12", "failed13", "failed14"}
 
 var verdictAtoms = map[string]string{
 	"jobStatus.Condition == trialutil.JobSucceeded": "jobSucceeded", "jobStatus.Condition == trialutil.JobFailed": "jobFailed",
